@@ -41,6 +41,8 @@ type Config struct {
 	DropClientCert bool   `json:"drop_client_cert"` // take no part in AutoMTLS (impostor / pre-AutoMTLS build)
 	DropMuxEnv     bool   `json:"drop_mux_env"`     // behave like a plugin built before the multiplexing field existed
 	JitterUs       int    `json:"jitter_us"`        // sleep up to this many microseconds at every verifhook point (schedule perturbation)
+	DelayPoint     string `json:"delay_point"`      // sleep DelayMs at this named verifhook point
+	DelayMs        int    `json:"delay_ms"`
 }
 
 var (
